@@ -1,10 +1,11 @@
 #!/bin/bash
-# mutgroup.sh <group dir>: run every seeded change of the group against the quick check of its property
+# mutgroup.sh <group dir> [tag]: run every seeded change of the group against the quick check of its property
 g=$1
+tag=${2:-res}
 for d in $g/out/*/; do
   id=$(basename $d)
   prop=${id%%_*}
-  if [ -f $g/res_$id.txt ] && grep -q '^{' $g/res_$id.txt; then continue; fi
-  python3 /verif/tools/mutant.py $g/wt $d/patch.diff $prop > $g/res_$id.txt 2>&1
+  if [ -f $g/${tag}_$id.txt ] && grep -q '^{' $g/${tag}_$id.txt; then continue; fi
+  python3 /verif/tools/mutant.py $g/wt $d/patch.diff $prop > $g/${tag}_$id.txt 2>&1
 done
-echo done > $g/ALLDONE
+echo done > $g/ALLDONE_$tag
